@@ -35,7 +35,8 @@ Definition race_spec (args : list val) : val :=
   match args with
   | [VL _; VL log] =>
       if existsb (fun v => match v with VS e => is_pref "not-held" e || String.eqb e "join-blocked" || String.eqb e "settle-timeout" | _ => false end) log
-      then VS "n/a"                       (* the schedule was not realised *)
+      then VS "n/a"                       (* the schedule was not realised; "worker-stuck" (the free worker never
+                                             answered a probe event) is not such a case: the run is judged *)
       else let '(v, _) := walk_log log false false true true false in
            if v =? 0 then VS "true" else VS "false:C12"
   | _ => verror "args"
